@@ -148,6 +148,9 @@ def make_run(opname, op, dt, backend, ctx_kind, with_filter):
             wit = {"rows": N.G_ROWS, "got_null": got.null, "got_val": got.val, "expected_null": spec_nv.null, "expected_val": spec_nv.val}
             if x is not None:
                 wit["nn_count_x"] = N.agg_fns(x.nv.sort)["nn_count"](N.expr_id(x.nv))
+                if x.nv.sort == N.BOOL:
+                    wit["nn_any_x"] = N.agg_fns(N.BOOL)["nn_any"](N.expr_id(x.nv))
+                    wit["nn_all_x"] = N.agg_fns(N.BOOL)["nn_all"](N.expr_id(x.nv))
             vc.require(list(p.pc) + facts, N.eq(got, spec_nv), label=f"aggregate value differs from the documented one (path {p.decisions})", witness_terms=wit)
         return vc.outcome(axioms=sorted(plmodel.AXIOMS_USED | sqlmodel.AXIOMS_USED))
 
@@ -176,6 +179,11 @@ def make_replayer(opname, op, dt, backend, ctx_kind, with_filter):
             vals = sample.get(str(dt))
             if vals is None:
                 return {"reproduced": False, "text": "no native replay builder for this column type"}
+            if str(dt) == "Bool":
+                if model.get("nn_any_x") is False:
+                    vals = [False] * 6
+                elif model.get("nn_all_x") is True:
+                    vals = [True] * 6
             data["x"] = pl.Series("x", vals[:nn] + [None] * (rows - nn), dtype=dt.to_polars())
         data["f"] = [True, False, True, None, True, False][:rows]
         df = pl.DataFrame(data)
